@@ -95,6 +95,14 @@ def main():
     for c, r in zip(cases, res):
         small = {k: c[k] for k in ("config", "sampler", "kwargs", "vname", "variant", "si")}
         if not r.get("runs"):
+            if "failed" in r and c["vname"] != "baseline" and base.get((c["config"], c["si"])) is not None:
+                # the baseline of this configuration completed and the variant's process ended with an error: the variant did change the outcome
+                last = [ln for ln in str(r.get("stderr", "")).strip().splitlines() if ln.strip()][-1:] or ["?"]
+                chk.count("variants_that_failed_although_the_baseline_completed")
+                chk.violation(f"C14:{c['sampler']}:{c['vname']}:run-fails-although-the-baseline-completes",
+                              f"{c['config']} seed={c['kwargs']['seed']} variant {c['vname']}: process exit {r['failed']}: {last[0][:300]}", small)
+                chk.case_done(ident=(c["config"], c["si"], c["vname"]), nontrivial=True)
+                continue
             chk.note_inconclusive(f"{c['config']}/{c['vname']}: {str(r)[:500]}")
             chk.case_done()
             continue
